@@ -1167,6 +1167,12 @@ VARIANTS += [
          edits=[dict(file='ipa-core/src/protocol/ipa_prf/shuffle/malicious.rs', find='                    .into_unpacking_iter()\n                    .collect::<Vec<_>>();\n            // Join tags to rows\n            Ok((0..TAG_CHUNK)\n                .map(|i| concatenate_row_and_tag(&chunk[i], &tags[i]))\n                .collect::<Vec<_>>())\n        }),\n    )\n', replace='                    .into_unpacking_iter()\n                    .collect::<Vec<_>>();\n            // Join tags to rows\n            debug_assert_eq!(tags.len(), TAG_CHUNK);\n            Ok(chunk\n                .iter()\n                .zip(&tags)\n                .map(|(row, tag)| concatenate_row_and_tag(row, tag))\n                .collect::<Vec<_>>())\n        }),\n    )\n')]),
     dict(prop="C05", name="h1-push-loop-swaps-shares", expect=["ALGEBRA", ""],
          edits=[dict(file='ipa-core/src/protocol/ipa_prf/shuffle/sharded.rs', find='\n    // set our shares\n    let ctx = ctx.narrow(&ShuffleStep::PseudoRandomTable);\n    let res = (0..sz)\n        .map(|i| {\n            // This may be confusing as paper specifies Ã and B̃ as independent tables, but\n            // there is really no reason to generate them using unique PRSS keys.\n            let (a, b) = ctx.prss().generate(RecordId::from(i));\n\n            S::new(a, b)\n        })\n        .collect();\n\n    Ok((res, IntermediateShuffleMessages::H1 { x1 }))\n}\n', replace='\n    // set our shares\n    let ctx = ctx.narrow(&ShuffleStep::PseudoRandomTable);\n    let mut res = Vec::with_capacity(sz);\n    for i in 0..sz {\n        // This may be confusing as paper specifies Ã and B̃ as independent tables, but\n        // there is really no reason to generate them using unique PRSS keys.\n        let (a, b) = ctx.prss().generate(RecordId::from(i));\n\n        res.push(S::new(b, a));\n    }\n\n    Ok((res, IntermediateShuffleMessages::H1 { x1 }))\n}\n')]),
+    dict(prop="C06", name="b8-sequential-reuse-is-some", benign=True,
+         edits=[dict(file='ipa-core/src/protocol/prss/mod.rs', find='        &mut self,\n        key: &Gate,\n    ) -> (SequentialSharedRandomness, SequentialSharedRandomness) {\n        let prev = self.items.insert(key.clone(), EndpointItem::Sequential);\n        assert!(\n            prev.is_none(),\n            "Attempt access a sequential PRSS for {key} after another access"\n        );\n        (\n            SequentialSharedRandomness::new(self.left.generator(key.as_ref().as_bytes())),\n            SequentialSharedRandomness::new(self.right.generator(key.as_ref().as_bytes())),\n        )\n    }\n}\n', replace='        &mut self,\n        key: &Gate,\n    ) -> (SequentialSharedRandomness, SequentialSharedRandomness) {\n        if self\n            .items\n            .insert(key.clone(), EndpointItem::Sequential)\n            .is_some()\n        {\n            panic!("Attempt access a sequential PRSS for {key} after another access");\n        }\n        let context = key.as_ref().as_bytes();\n        (\n            SequentialSharedRandomness::new(self.left.generator(context)),\n            SequentialSharedRandomness::new(self.right.generator(context)),\n        )\n    }\n}\n')]),
+    dict(prop="C08", name="b8-deserialize-bool-then", benign=True,
+         edits=[dict(file='ipa-core/src/ff/prime_field.rs', find='                buf: &GenericArray<u8, Self::Size>,\n            ) -> Result<Self, Self::DeserializationError> {\n                let v = <$backend_store>::from_le_bytes((*buf).into());\n                if v < Self::PRIME {\n                    Ok(Self(v))\n                } else {\n                    Err(GreaterThanPrimeError(v, Self::PRIME.into()))\n                }\n            }\n        }\n\n', replace='                buf: &GenericArray<u8, Self::Size>,\n            ) -> Result<Self, Self::DeserializationError> {\n                let v = <$backend_store>::from_le_bytes((*buf).into());\n                // only canonical representatives, i.e. values in `0..PRIME`, are accepted\n                (v < Self::PRIME)\n                    .then(|| Self(v))\n                    .ok_or_else(|| GreaterThanPrimeError(v, Self::PRIME.into()))\n            }\n        }\n\n')]),
+    dict(prop="C08", name="deserialize-then-accepts-prime", expect=['RANGE-invariant', 'deserialize'],
+         edits=[dict(file='ipa-core/src/ff/prime_field.rs', find='                buf: &GenericArray<u8, Self::Size>,\n            ) -> Result<Self, Self::DeserializationError> {\n                let v = <$backend_store>::from_le_bytes((*buf).into());\n                if v < Self::PRIME {\n                    Ok(Self(v))\n                } else {\n                    Err(GreaterThanPrimeError(v, Self::PRIME.into()))\n                }\n            }\n        }\n\n', replace='                buf: &GenericArray<u8, Self::Size>,\n            ) -> Result<Self, Self::DeserializationError> {\n                let v = <$backend_store>::from_le_bytes((*buf).into());\n                // only canonical representatives, i.e. values in `0..PRIME`, are accepted\n                (v <= Self::PRIME)\n                    .then(|| Self(v))\n                    .ok_or_else(|| GreaterThanPrimeError(v, Self::PRIME.into()))\n            }\n        }\n\n')]),
 ]
 
 
